@@ -42,9 +42,13 @@ StageChecks(i, m, r) ==
   \o Chk(Want, i, "C41_RequestedNeeded", r.err = "" => C41_RequestedNeeded(m, r.disk0, s0, r.req, r.ret))
   \o Chk(Want, i, "C41_StageLeavesRoot", C41_StageLeavesRoot(r.disk0, r.disk1))
   \o Chk(Want, i, "C10_StoreContentAddressed", C10_StoreContentAddressed(s1))
+  \o Chk(Want, i, "C10_StagedWithinSizeLimit", C10_StagedWithinSizeLimit(s1, m.maxfile))
 
 RecvChecks(i, m, r) ==
      Chk(Want, i, "C10_StoreContentAddressed", C10_StoreContentAddressed(StoreSet(r.store1)))
+  \o Chk(Want, i, "C10_StagedWithinSizeLimit", C10_StagedWithinSizeLimit(StoreSet(r.store1), m.maxfile))
+  \o Chk(Want, i, "C10_FittingTransferStaged",
+         C10_FittingTransferStaged(m.init /\ ~m.sdirty /\ r.err = "", m.maxfile, r.plan, StoreSet(r.store1)))
   \o Chk(Want, i, "C41_StageLeavesRoot", C41_StageLeavesRoot(r.disk0, r.disk1))
 
 TransChecks(i, m, r) ==
@@ -72,7 +76,7 @@ Checks(i, m, r) ==
 
 \* the spec's own protocol update for the observed call
 Apply(m, r) ==
-  CASE r.ev = "New" -> NewProto(r.ro, r.max)
+  CASE r.ev = "New" -> NewProto(r.ro, r.max, r.maxfile)
     [] r.ev = "Ext" -> ExtUpd(m)
     [] r.ev = "Scan" -> ScanUpd(m, r.disk0)
     [] r.ev = "Stage" -> StageUpd(m, Len(r.req))
@@ -84,7 +88,8 @@ Bump(sx, m, r) ==
   CASE r.ev = "Stage" ->
          LET ok == r.err = ""
              nom == Cardinality({j \in DOMAIN r.req : \A k \in DOMAIN r.ret : r.ret[k] # r.req[j].path})
-             conf == ~ok \/ r.ret \in {o.ret : o \in StageWalk(m, r.disk0, r.req, StoreSet(r.store0), <<>>)}
+             \* (the mechanism model measures sizes in write units: compared only without a byte limit)
+             conf == ~ok \/ m.maxfile # Unlimited \/ r.ret \in {o.ret : o \in StageWalk(m, r.disk0, r.req, StoreSet(r.store0), <<>>)}
          IN [sx EXCEPT !.stage_ok = @ + (IF ok /\ Len(r.req) > 0 THEN 1 ELSE 0),
                        !.omitted = @ + (IF ok THEN nom ELSE 0),
                        !.requested = @ + (IF ok THEN Len(r.ret) ELSE 0),
@@ -104,7 +109,7 @@ Bump(sx, m, r) ==
                        !.readonly = @ + (IF m.ro THEN 1 ELSE 0)]
     [] OTHER -> sx
 
-TInit == l = 1 /\ fails = <<>> /\ st = NewProto(FALSE, Unlimited) /\ stats = Stats0 /\ done = FALSE
+TInit == l = 1 /\ fails = <<>> /\ st = NewProto(FALSE, Unlimited, Unlimited) /\ stats = Stats0 /\ done = FALSE
 Step == /\ l <= NRec
         /\ LET r == Trace[l] IN
            /\ fails' = Cap(fails \o Checks(l, st, r))
